@@ -11,7 +11,11 @@ PROPERTY = {
         Unit("c15_tablets", "C15", "c15_tablets.vrs", desc={
             "tablet_for_token": "wf(list) => Some(t): t in list and covers token; None: no tablet of the list covers token",
             "add_tablet": "wf preserved; new tablet present; exactly the overlapping tablets removed; all others kept; flag",
-        }),
+            "lemma_history_wf": "after any history of add/maintenance steps the list is sorted and pairwise disjoint",
+            "lemma_history_no_stale": "every tablet in the map was learnt at some step and no later update overlapped it (no stale answers)",
+            "lemma_history_latest_wins": "a learnt tablet not overlapped later (and no maintenance in between) is still in the map",
+            "lemma_answer_unique": "at most one tablet of a well-formed map covers a token",
+        }, carries_lemmas=("lemma_history_wf", "lemma_history_no_stale", "lemma_history_latest_wins", "lemma_answer_unique")),
     ],
     "kani": [],
     "trusted_base": [
